@@ -249,6 +249,15 @@ def run(cx):
                      and dotted(s.value.func) == 'scipy.stats.mode']
             ok = (len(subs) == 1 and sym.norm(subs[0].slice) == ('num', 0) and not attrs) or \
                  (len(attrs) == 1 and attrs[0].attr == 'mode' and not subs)
+            if not ok and not subs and not attrs:
+                # (values, counts) taken apart by unpacking: the first part is used, the second bound to a name nothing reads
+                unp = [s for s in fn.stmts(ast.Assign) if isinstance(s.value, ast.Call) and dotted(s.value.func) == 'scipy.stats.mode'
+                       and len(s.targets) == 1 and isinstance(s.targets[0], ast.Tuple) and len(s.targets[0].elts) == 2
+                       and all(isinstance(t, ast.Name) for t in s.targets[0].elts)]
+                if len(unp) == 1:
+                    first, junk = [t.id for t in unp[0].targets[0].elts]
+                    loads = {n.id for n in fn.walk() if isinstance(n, ast.Name) and isinstance(n.ctx, ast.Load)}
+                    ok = first in loads and junk not in loads
             fn.ob('FORMULA', 'the modal values (not the counts) are returned', ok, subs[0] if subs else fn.ast, key='mode-field')
     # IDENT
     st = Fn(cx, 'stats.std')
